@@ -172,6 +172,31 @@ func runConc(r *h.Run, sc concScenario) {
 			anyErrFault = true
 		}
 	}
+	// real-time order (the per-call projection of the schedule: start / end instants and result kinds). The immutable cache
+	// serves the most recent package, so a Fetch that BEGAN after a successful Store(w) had returned must not install a
+	// version whose own Store had returned before Store(w) even began (the start/end instants are logical ticks).
+	storeOf := map[int]callRec{0: {Kind: "store", Ver: 0, Start: -1, End: 0, Res: "ok"}}
+	for _, c := range calls {
+		if c.Kind == "store" {
+			storeOf[c.Ver] = c
+		}
+	}
+	for _, f := range calls {
+		if f.Kind != "fetch" || f.Res != "ok" || f.Installed < 0 {
+			continue
+		}
+		sv, known := storeOf[f.Installed]
+		if !known {
+			continue
+		}
+		for _, w := range storeOf {
+			if w.Res == "ok" && w.Ver != sv.Ver && w.End < f.Start && sv.End < w.Start {
+				r.Fail("store-success-not-visible:"+sc.Kind+":concurrent:stale-version"+sc.Env.sig(),
+					fmt.Sprintf("client %d: Fetch began after Store(v%d) had reported success, yet installed v%d whose Store had ended before Store(v%d) began", f.Client, w.Ver, f.Installed, w.Ver), sc)
+				break
+			}
+		}
+	}
 	// quiescent: a fresh client fetches
 	fc := w.newClient(sc.Kind, 2*time.Second, true)
 	_ = fc.clean()
@@ -452,7 +477,7 @@ func otherScenarios(r *h.Run) {
 	for i, n := 0, r.N(10, 60); i < n; i++ {
 		runGated(r, genGated(r, i))
 	}
-	for i, n := 0, r.N(120, 1500); i < n; i++ {
+	for i, n := 0, r.N(100, 1500); i < n; i++ {
 		runConc(r, genConc(r, i))
 	}
 	zipcutScenarios(r)
